@@ -24,80 +24,6 @@ several frames in one window, stray timeouts —:
 set_option linter.unusedSimpArgs false
 namespace Model
 
-/-! ## `NoUpdate` changes nothing -/
-
-theorem sessionHandleRx_noUpdate_state (s : Session) (cfg : Config) (region : RegionState) (d : RxData) (mp : Nat)
-    (snr : Int) (o : RxOut) (s' : Session) (cfg' : Config) (region' : RegionState)
-    (h : sessionHandleRx s cfg region d mp snr false = .ok (o, s', cfg', region')) (hn : o.resp = .noUpdate) :
-    s' = s ∧ cfg' = cfg ∧ region' = region := by
-  unfold sessionHandleRx at h
-  split at h
-  · simp only [Bool.false_eq_true, if_false, pure, Except.pure, Except.ok.injEq, Prod.mk.injEq] at h
-    obtain ⟨rfl, _, _, _⟩ := h
-    simp only at hn
-    have := rx2Complete_resp s cfg region.id
-    rw [hn] at this
-    cases this
-  · split at h
-    · simp only [pure, Except.pure, Except.ok.injEq, Prod.mk.injEq] at h
-      exact ⟨h.2.1.symm, h.2.2.1.symm, h.2.2.2.symm⟩
-    · split at h
-      · simp only [pure, Except.pure, Except.ok.injEq, Prod.mk.injEq] at h
-        exact ⟨h.2.1.symm, h.2.2.1.symm, h.2.2.2.symm⟩
-      · simp only [] at h
-        obtain ⟨ctx, _, h⟩ := Except.bind_eq_ok h
-        by_cases hx : (s.fcntUp == 0xFFFFFFFF) = true
-        · cases hc : d.confirmed <;>
-            simp only [hc, hx, Bool.false_eq_true, if_false, if_true, pure, Except.pure, Except.ok.injEq,
-              Prod.mk.injEq] at h <;>
-            obtain ⟨rfl, _⟩ := h <;> cases hn
-        · cases hc : d.confirmed <;>
-            simp only [hc, hx, Bool.false_eq_true, if_false, if_true, pure, Except.pure, Except.ok.injEq,
-              Prod.mk.injEq] at h <;>
-            obtain ⟨rfl, _⟩ := h <;> cases hn
-
-/-- **a frame the MAC answers with `NoUpdate` in a receive window leaves the MAC state as it was** -/
-theorem macHandleRx_noUpdate_state (m : MacState) (v : RxView) (mp : Nat) (snr : Int) (o : RxOut) (m' : MacState)
-    (h : macHandleRx m v mp snr false = .ok (some o, m')) (hn : o.resp = .noUpdate) : m' = m := by
-  unfold macHandleRx at h
-  split at h
-  · rename_i s hst
-    split at h
-    · obtain ⟨⟨o', s', cfg', region'⟩, hs, h⟩ := Except.bind_eq_ok h
-      simp only [pure, Except.pure, Except.ok.injEq, Prod.mk.injEq, Option.some.injEq] at h
-      obtain ⟨rfl, rfl⟩ := h
-      obtain ⟨rfl, rfl, rfl⟩ := sessionHandleRx_noUpdate_state _ _ _ _ _ _ _ _ _ _ hs hn
-      exact MacState.eta_joined hst
-    · cases h; rfl
-  · simp only [Bool.false_eq_true, if_false] at h
-    split at h
-    · split at h
-      · obtain ⟨m2, _, h⟩ := Except.bind_eq_ok h
-        cases h; cases hn
-      · cases h; rfl
-    · cases h; rfl
-  · simp only [Bool.false_eq_true, if_false] at h
-    cases h; rfl
-
-/-- in a window `handle_rx` always answers -/
-theorem macHandleRx_window_some (m : MacState) (v : RxView) (mp : Nat) (snr : Int) (m' : MacState)
-    (h : macHandleRx m v mp snr false = .ok (none, m')) : False := by
-  unfold macHandleRx at h
-  split at h
-  · split at h
-    · obtain ⟨⟨o', s', cfg', region'⟩, _, h⟩ := Except.bind_eq_ok h
-      cases h
-    · cases h
-  · simp only [Bool.false_eq_true, if_false] at h
-    split at h
-    · split at h
-      · obtain ⟨m2, _, h⟩ := Except.bind_eq_ok h
-        cases h
-      · cases h
-    · cases h
-  · simp only [Bool.false_eq_true, if_false] at h
-    cases h
-
 /-! ## sessions of the non-blocking front-end -/
 
 /-- one event, with the answers of the radio to the calls it causes -/
